@@ -410,12 +410,17 @@ def build_for(prop, checks, tier, level_text, extra=None, versions=None, only=No
     hv = versions
     if q and len(versions) > 3:
         hv = ["1.4", "2.0", "2.2"]
-    hs.append(Harness("history-from-empty", history(hv, 3 if q else 4, checks),
-                      {"events": 3 if q else 4, "kinds": KINDS, "start": "empty gateway",
-                       "versions": hv,
+    hs.append(Harness("history-from-empty", history(hv, 3, checks),
+                      {"events": 3, "kinds": KINDS, "start": "empty gateway", "versions": hv,
                        "ids / value types / texts": "symbolic"},
                       goals=["history"], timeout_ms=20000,
                       doc="bounded histories through the public API vs the reference model"))
+    if not q:
+        hs.append(Harness("history-from-empty-4", history(["2.2"], 4, checks),
+                          {"events": 4, "kinds": KINDS, "start": "empty gateway",
+                           "versions": ["2.2"]},
+                          goals=["history"], timeout_ms=20000,
+                          doc="four-event histories (version 2.2) vs the reference model"))
     hs += list(extra or [])
     return {
         "harnesses": hs,
